@@ -4,7 +4,7 @@ Every theorem is about Model/C20 (`parseUri` = the REPAIRED `RadioDriver.parse_u
 constants, format strings, guard texts and class list are regenerated from /repo (Gen/C20).  URIs are written with the
 printers of Spec/C20 (`mkUri`, `printUri`); helper lemmas are in Proofs/C20*.
 -/
-import CfVerif.Proofs.C20
+import CfVerif.Proofs.C20Scan
 namespace CfVerif.C20
 open CfVerif
 
@@ -51,5 +51,111 @@ theorem parse_print_query_options (serials : List Str) (dongle : Str) (devid : N
         (some (queryText (pre ++ ("rate_limit".toList, natStr l) :: post)))) =
       .ok ⟨devid, ch, rate.value, beBytes5 (hexValue A), some l⟩ :=
   parse_print_query_options_aux serials dongle devid hd ch hch rate A hA1 hA10 hhex pre post hpre hpost l hl
+
+/-- Options other than `rate_limit` leave the rate limit unset. -/
+theorem parse_print_other_options (serials : List Str) (dongle : Str) (devid : Nat) (hd : Dongle serials dongle devid)
+    (ch : Nat) (hch : ch ≤ 125) (rate : Rate)
+    (A : Str) (hA1 : 1 ≤ A.length) (hA10 : A.length ≤ 10) (hhex : ∀ c ∈ A, IsHex c)
+    (opts : List (Str × Str)) (hopts : ∀ kv ∈ opts, OptOk kv ∧ kv.1 ≠ "rate_limit".toList) :
+    parseUri serials (mkUri dongle [natStr ch, rate.text, A] false (some (queryText opts))) =
+      .ok ⟨devid, ch, rate.value, beBytes5 (hexValue A), none⟩ :=
+  no_rate_limit_aux serials dongle devid hd ch hch rate A hA1 hA10 hhex opts hopts
+
+/-- **defaults_when_omitted.**  Omitted trailing fields default: no channel → channel 2, 2M, E7E7E7E7E7; no rate → 2M,
+E7E7E7E7E7; no address → E7E7E7E7E7 — with or without a trailing slash and with or without a rate limit. -/
+theorem defaults_when_omitted (serials : List Str) (dongle : Str) (devid : Nat) (hd : Dongle serials dongle devid)
+    (ch : Nat) (hch : ch ≤ 125) (rate : Rate) (limit : Option Nat) (hl : ∀ l, limit = some l → l < 10 ^ 4300) (trailing : Bool) :
+    parseUri serials (mkUri dongle [] trailing (limitQuery limit)) =
+      .ok ⟨devid, 2, Rate.r2M.value, [0xE7, 0xE7, 0xE7, 0xE7, 0xE7], limit.map Int.ofNat⟩ ∧
+    parseUri serials (mkUri dongle [natStr ch] trailing (limitQuery limit)) =
+      .ok ⟨devid, ch, Rate.r2M.value, [0xE7, 0xE7, 0xE7, 0xE7, 0xE7], limit.map Int.ofNat⟩ ∧
+    parseUri serials (mkUri dongle [natStr ch, rate.text] trailing (limitQuery limit)) =
+      .ok ⟨devid, ch, rate.value, [0xE7, 0xE7, 0xE7, 0xE7, 0xE7], limit.map Int.ofNat⟩ :=
+  defaults_aux serials dongle devid hd ch hch rate limit hl trailing
+
+/-- A trailing slash after the address changes nothing. -/
+theorem trailing_slash_ignored (serials : List Str) (dongle : Str) (devid : Nat) (hd : Dongle serials dongle devid)
+    (ch : Nat) (hch : ch ≤ 125) (rate : Rate)
+    (A : Str) (hA1 : 1 ≤ A.length) (hA10 : A.length ≤ 10) (hhex : ∀ c ∈ A, IsHex c)
+    (limit : Option Nat) (hl : ∀ l, limit = some l → l < 10 ^ 4300) :
+    parseUri serials (mkUri dongle [natStr ch, rate.text, A] true (limitQuery limit)) =
+      .ok ⟨devid, ch, rate.value, beBytes5 (hexValue A), limit.map Int.ofNat⟩ :=
+  trailing_slash_aux serials dongle devid hd ch hch rate A hA1 hA10 hhex limit hl
+
+/-- D16: the code as it is in the unrepaired tree does NOT default the omitted channel: `radio://0` and `radio://0/`
+raise ValueError (`''.split('/') == ['']`), so `defaults_when_omitted` is false of `parseUriLive`. -/
+theorem defaults_when_omitted_live_counterexample :
+    parseUriLive [] (mkUri (natStr 0) [] false none) = .error .valueError ∧
+    parseUriLive [] (mkUri (natStr 0) [] true none) = .error .valueError ∧
+    ¬ (∀ trailing, parseUriLive [] (mkUri (natStr 0) [] trailing (limitQuery none)) =
+        .ok ⟨0, 2, Rate.r2M.value, [0xE7, 0xE7, 0xE7, 0xE7, 0xE7], none⟩) := by
+  refine ⟨by decide, by decide, fun h => ?_⟩
+  have := h false
+  revert this
+  decide
+
+/-- the repaired parser agrees with the live one wherever a channel is given (same concrete inputs) -/
+example : parseUriLive [] "radio://0/80".toList = parseUri [] "radio://0/80".toList := by decide
+
+/-! ## Malformed radio URIs are rejected (the error reaches `open_link`, see below) -/
+
+/-- An address of 11 or more hex digits is rejected (odd length: `binascii.Error`; even: `struct.error`). -/
+theorem long_address_rejected (serials : List Str) (dongle : Str) (devid : Nat) (hd : Dongle serials dongle devid)
+    (ch : Nat) (hch : ch ≤ 125) (rate : Rate) (A : Str) (h11 : 11 ≤ A.length) (hhex : ∀ c ∈ A, IsHex c)
+    (limit : Option Nat) (hl : ∀ l, limit = some l → l < 10 ^ 4300) :
+    parseUri serials (printUri dongle ch rate A limit) = .error (if A.length % 2 = 1 then .valueError else .structError) :=
+  long_address_aux serials dongle devid hd ch hch rate A h11 hhex limit hl
+
+/-- A channel field that `int()` does not accept is rejected with that error, whatever follows it. -/
+theorem bad_channel_rejected (serials : List Str) (dongle : Str) (devid : Nat) (hd : Dongle serials dongle devid)
+    (segs : List Str) (hs : ∀ s ∈ segs, s ≠ [] ∧ ∀ c ∈ s, FieldChar c) (trailing : Bool)
+    (limit : Option Nat) (hl : ∀ l, limit = some l → l < 10 ^ 4300)
+    (C : Str) (hC : C ≠ [] ∧ ∀ c ∈ C, FieldChar c) (e : Err) (hbad : pyInt C = .error e) :
+    parseUri serials (mkUri dongle (C :: segs) trailing (limitQuery limit)) = .error e :=
+  bad_channel_aux serials dongle devid hd segs hs trailing limit hl C hC e hbad
+
+/-- A dongle id that is neither a short index nor the serial number of an attached dongle (this includes the missing
+dongle of `radio:///80`) is rejected with `Exception('Cannot find radio with serial ...')`. -/
+theorem unknown_dongle_rejected (serials : List Str) (N : Str) (hN : ∀ c ∈ N, NetlocChar c)
+    (hnot : ¬ (N.length < 10 ∧ N ≠ [] ∧ ∀ c ∈ N, isDigit c = true)) (hidx : indexOf? (N.map upperAscii) serials = none)
+    (segs : List Str) (hs : ∀ s ∈ segs, s ≠ [] ∧ ∀ c ∈ s, FieldChar c) (trailing : Bool)
+    (limit : Option Nat) (hl : ∀ l, limit = some l → l < 10 ^ 4300) :
+    parseUri serials (mkUri N segs trailing (limitQuery limit)) = .error .exception :=
+  unknown_dongle_aux serials N hN hnot hidx segs hs trailing limit hl
+
+/-! ## Scanning -/
+
+theorem gen_scan : Gen.C20.scanPlainTest = "address is None or address == DEFAULT_ADDR" ∧ Gen.C20.defaultAddrInt = 0xE7E7E7E7E7 ∧
+    Gen.C20.scanAddrUnpackArgs = ["binascii.unhexlify(addr)"] ∧
+    Gen.C20.scanPlain.map (fun e => (e.1, e.2.2)) = [(0, ["chan"]), (1, ["chan"]), (2, ["chan"])] ∧
+    Gen.C20.scanAddressed.map (fun e => (e.1, e.2.2)) = [(0, ["chan", "address"]), (1, ["chan", "address"]), (2, ["chan", "address"])] := by
+  decide
+theorem gen_scan_selected : Gen.C20.scanSelRegex = "^radio://([0-9]+)((/([0-9]+))(/(250K|1M|2M))?)?" ∧
+    Gen.C20.scanSelChannelExpr = "int(uri_data.group(4))" ∧ Gen.C20.scanSelFmtArgs = ["f['channel']", "dr_string"] ∧
+    Gen.C20.scanSelRateTable.map (fun e => e.1) = ["uri_data.group(6)", "uri_data.group(6)", "uri_data.group(6)"] := by decide
+
+/-- **scan_results_parse_back (scan_interface).**  `scan_interface(address)` makes one pass per data rate; it reports, for
+the channels `f0 f1 f2` that answered in the three passes, exactly the URIs `scanUri address rate channel`; with an
+address it programs that address (most significant byte first) into the radio; and every reported URI parses back to
+dongle 0, the scanned channel, the scanned rate and the scanned address. -/
+theorem scan_results_parse_back (serials : List Str) (address : Option Nat) (ha : ∀ a, address = some a → a < 2 ^ 40)
+    (f0 f1 f2 : List Nat) :
+    scanInterface (address.map Int.ofNat) [f0.map Int.ofNat, f1.map Int.ofNat, f2.map Int.ofNat] =
+      .ok [(Rate.r250K.value, f0.map (scanUri address .r250K)), (Rate.r1M.value, f1.map (scanUri address .r1M)),
+           (Rate.r2M.value, f2.map (scanUri address .r2M))] ∧
+    (∀ a, address = some a → scanSetAddress a = .ok (beBytes5 a)) ∧
+    ∀ (r : Rate) (c : Nat), c ≤ 125 →
+      parseUri serials (scanUri address r c) = .ok ⟨0, c, r.value, scannedAddr address, none⟩ :=
+  ⟨scan_interface_aux address ha f0 f1 f2, fun a h => scanSetAddress_spec a (ha a h),
+   fun r c hc => scan_parse_back_aux serials address ha r c hc⟩
+
+/-- **scan_results_parse_back (scan_selected).**  A link `radio://<d>/<c>/<rate>` is scanned on channel `c` at that rate, and
+the URI reported for it parses back to dongle 0, that channel, that rate and the default address. -/
+theorem scan_selected_parse_back (serials : List Str) (d c : Nat) (hc : c ≤ 125) (r : Rate) :
+    scanSelEntry (mkUri (natStr d) [natStr c, r.text] false none) = .ok ((c : Int), r.value) ∧
+    scanSelReport ((c : Int), r.value) = .ok (scanUri none r c) ∧
+    parseUri serials (scanUri none r c) = .ok ⟨0, c, r.value, [0xE7, 0xE7, 0xE7, 0xE7, 0xE7], none⟩ :=
+  ⟨scanSelEntry_spec d c hc r, by simpa [scanUri, scanPlainAddr] using scanSelReport_spec c r,
+   scan_parse_back_aux serials none (by simp) r c hc⟩
 
 end CfVerif.C20
